@@ -622,9 +622,21 @@ theorem processSwapsForPool_ok (k : PoolKey) (st : State) (swaps : List Tx) (poo
 def depTL (deps : List Tx) : Nat := satSum (deps.map fun tx => (tx.outputs.headD default).value)
 def depTR (deps : List Tx) : Nat := satSum (deps.map fun tx => ((tx.outputs.drop 1).headD default).value)
 
+/-- a deposit that would saturate the pool's liquidity record is left unsettled -/
+theorem processDepositsForPool_skip (env : Env) (k : PoolKey) (st : State) (deps : List Tx) (pool' : PoolState)
+    (tl : Nat)
+    (hdep : ((st.pools.get k).getD PoolState.newEmpty).deposit (depTL deps) (depTR deps) = .ok (pool', tl))
+    (hsat : ((st.pools.get k).getD PoolState.newEmpty).liqs + tl > U128_MAX) :
+    processDepositsForPool env k st deps = .ok st := by
+  unfold depTL depTR at hdep
+  unfold processDepositsForPool
+  simp only [hdep]
+  rw [if_pos hsat]
+
 theorem processDepositsForPool_ok (env : Env) (k : PoolKey) (st : State) (deps : List Tx) (pool' : PoolState)
     (tl : Nat) (P : CoinMap → Prop)
     (hdep : ((st.pools.get k).getD PoolState.newEmpty).deposit (depTL deps) (depTR deps) = .ok (pool', tl))
+    (hfit : ¬ ((st.pools.get k).getD PoolState.newEmpty).liqs + tl > U128_MAX)
     (hd : ∀ tx ∈ deps, ∃ o0 o1 rest, tx.outputs = o0 :: o1 :: rest ∧ 0 < o0.value ∧ 0 < o1.value)
     (hP0 : P st.coins)
     (hPins : ∀ coins tx o0 o1 rest cd, tx ∈ deps → tx.outputs = o0 :: o1 :: rest → P coins →
@@ -636,6 +648,7 @@ theorem processDepositsForPool_ok (env : Env) (k : PoolKey) (st : State) (deps :
   unfold depTL depTR at hdep
   unfold processDepositsForPool
   simp only [hdep]
+  rw [if_neg hfit]
   refine bind_fold_ok _ (fun c rest => P c ∧ ∀ tx ∈ rest, tx ∈ deps) ?_ deps st.coins
     ⟨hP0, fun _ h => h⟩ _ P (fun _ h => h.1)
   intro coins tx rest ⟨hPc, hmem⟩
@@ -917,8 +930,11 @@ theorem processDeposits_ok (env : Env) (s st0 : State) (B V : Nat)
     | some p => exact hpo'.sane k p hg
   obtain ⟨pool', m, hdep, hpos, hD, hle⟩ := deposit_spec _ (depTL (transactionsForPool reqs k))
     (depTR (transactionsForPool reqs k)) hsane
+  by_cases hsat : ((st.pools.get k).getD PoolState.newEmpty).liqs + m > U128_MAX
+  · exact ⟨st, processDepositsForPool_skip env k st _ pool' m hdep hsat, hnod'.2, hb, hpo', hci', hnd',
+      fun hmem => hB1 (List.mem_cons_of_mem _ hmem), hB2, fun k' hk' => hsub k' (List.mem_cons_of_mem _ hk')⟩
   obtain ⟨coins, hP, hok⟩ := processDepositsForPool_ok env k st (transactionsForPool reqs k) pool' m
-    (CoinsInv s.txs s.tip906) hdep
+    (CoinsInv s.txs s.tip906) hdep hsat
     (fun tx htx => by
       obtain ⟨_, o0, o1, r, ho, h0, h1, _⟩ := hdp k tx htx
       exact ⟨o0, o1, r, ho, h0, h1⟩) hci' (by
